@@ -18,7 +18,8 @@ RULE = ("generated two-module programs (C01's generator: every program has set a
         "different orders and with versions queried in different orders (which also permutes module import "
         "order); then one interpreter calls every memento function on an empty store and a second one (other "
         "hash seed, other orders) calls them again with body executions traced to a file; non-trivial = "
-        "distinct programs with >= 1 set constant and >= 3 auto-versioned functions")
+        "distinct programs with >= 1 set constant and >= 3 auto-versioned functions"
+        '; programs also carry dictionaries built from sets, a memento function as default value, a symbol bound at the end of the module under the name of a missing attribute, helpers defined twice')
 ASSUMPTIONS = ["each interpreter is a fresh process of /venv/bin/python importing the tree under test"]
 TIMEOUT = 900
 WORKERS = {"quick": 12, "thorough": 16}
